@@ -876,6 +876,16 @@ class Interp(object):
             y = fr.env['$ypair'].z
             fr.env['$ypair'] = VOpaque(z3.Store(y, a, z3.Store(y[a], b, y[a][b] + 1)), 'ghost')
             return VNone
+        if '$ydeg' in fr.env:
+            # ghost: how many times a (node, number) pair was yielded for each node; what the number is, is the hook's business
+            if not (v.kind == 'tuple' and len(v.items) == 2 and v.items[0].kind == 'node' and v.items[1].kind == 'int'):
+                raise Undecided('yield of a value that is not a (node, int) pair')
+            hook = getattr(self, 'on_yield_deg', None)
+            if hook:
+                hook(self, v.items[0].z, v.items[1])
+            y = fr.env['$ydeg'].z
+            fr.env['$ydeg'] = VOpaque(z3.Store(y, v.items[0].z, y[v.items[0].z] + 1), 'ghost')
+            return VNone
         if '$ycnt' in fr.env:
             # ghost multiset of yielded event tuples (u, v, op, t) and the time of the last yield
             if not (v.kind == 'tuple' and len(v.items) == 4 and v.items[3].kind == 'int'):
